@@ -19,7 +19,8 @@ Record crash_obs := {
 
 Inductive akind :=
 | AUpload (r id : string) (es : list entry)
-| ALabel (r name b : string).
+| ALabel (r name b : string)
+| ACommit (r : string).            (* the commit of a diamond whose splits are complete *)
 
 Record acase := { ac_before : snap; ac_kind : akind; ac_E : nat; ac_crashes : list crash_obs }.
 
@@ -32,6 +33,7 @@ Definition crash_model_ok (c : acase) (o : crash_obs) : bool :=
       let m' := crashed_upload r id es (ac_E c) (co_landed_meta o) (sn_meta (ac_before c)) in
       ostrs_eqb (list_bundles r 1000 m') (co_listed o) &&
       strs_eqb (sort_by String.leb (map fst (firstn (co_landed_meta o) ws))) (co_new_keys o)
+  | ACommit _ => true        (* the commit protocol is modelled under C12; here only what is visible is judged *)
   | ALabel r n b =>
       let w := {| w_meta := sn_meta (ac_before c); w_vmeta := sn_vmeta (ac_before c) |} in
       let w' := if Nat.eqb (co_landed_meta o) 0 then w else snd (set_label r n b w) in
@@ -58,6 +60,20 @@ Definition crash_spec_ok (c : acase) (o : crash_obs) : bool :=
         match co_labels o with Some l => ListCheck.pairs_eqb l (spec_labels r EmptyString (sn_vmeta (ac_before c))) | None => false end
       else
         ostrs_eqb (co_listed o) (Some (sort_by String.leb (id :: visible_before))) && co_new_readable o
+  | ACommit r =>
+      (* whatever the crash point: the bundles listed are those of before, in place, plus at most one new one;
+         a new one reads back completely; latest resolves to the last one listed; labels are untouched *)
+      let visible_before := spec_bundles r before_m in
+      match co_listed o with
+      | Some l =>
+          strs_eqb (firstn (List.length visible_before) l) visible_before &&
+          Nat.leb (List.length l) (S (List.length visible_before)) &&
+          (match co_latest o, rev l with
+           | Some x, y :: _ => String.eqb x y | None, [] => true | _, _ => false end)
+      | None => false
+      end &&
+      co_new_readable o &&
+      match co_labels o with Some l => ListCheck.pairs_eqb l (spec_labels r EmptyString (sn_vmeta (ac_before c))) | None => false end
   | ALabel r n b =>
       match co_labels o with
       | Some l =>
